@@ -2445,8 +2445,10 @@ class Parameters:
             callback = partial(_update_deps_caller, obj, attribute)
 
         p = '.'.join(dynamic_dep.spec.split(':')[0].split('.')[depth+1:])
-        if p == 'param':
-            subparams = [sp for sp in list(subobjs[-1].param)]
+        if p == 'param' or p.endswith('.param'):
+            # every parameter of the final object (none while it is missing)
+            prefix = p[:-len('param')]
+            subparams = [] if subobjs[-1] is None else [prefix + sp for sp in list(subobjs[-1].param)]
         else:
             subparams = [p]
 
